@@ -18,6 +18,10 @@ def run_history(args):
     n = rng.randrange(1, max_steps + 1)
     ro_tree = g.ro(rng.randrange(0, 5))
     ro_text = TJ.to_text(ro_tree)
+    kr = impl.classify_text(ro_text)
+    if kr != {'kind': 'RunningOrder'}:
+        # the library does not read this running-order document as one: reported by the caller
+        return {'seed': seed, 'ro_text': ro_text, 'steps': [], 'docs': [ro_text], 'ids': [1], 'ro_load': kr}
     ro = impl.load(ro_text)
     ids = gen_hist.message_ids(rng, n)
     delete_at = rng.randrange(0, n) if (with_delete and rng.random() < 0.5) else None
@@ -79,6 +83,13 @@ def history_cases(hists):
     """Merge-step cases (with the live implementation's observation attached)."""
     out = []
     for h in hists:
+        if h.get('ro_load'):
+            from . import build as B
+            msg = B.ready_to_air(message_id='2')
+            out.append({'family': 'hist', 'cls': 'ReadyToAir', 'label': f'hist:seed={h["seed"]}:running order not loadable',
+                        'ro': TJ.parse(h['ro_text']), 'msg': msg, 'msg_text': TJ.to_text(msg),
+                        'impl': {'ro_load': h['ro_load'], 'kind': 'ReadyToAir'}})
+            continue
         script = []
         special = isinstance(h['seed'], str)        # scripted histories: the step may depend on the steps before it
         for st in h['steps']:
